@@ -84,6 +84,9 @@ type Config struct {
 // Small lists the scenarios whose preemption-bounded trees (free switches at blocking points) are small enough to finish.
 var Small = map[string]bool{"same-key-twice": true, "two-keys-growing-log": true, "upper-and-gomod": true, "two-clients-same-key": true, "nosumdb-next-to-normal": true, "nosumdb-only-client": true, "one-thread-two-lookups-vs-one": true, "fork-two-clients-empty-config": true}
 
+// Compact lists the scenarios that get one more deviation (few scheduling points per execution).
+var Compact = map[string]bool{"three-heads-one-client-h8": true, "same-key-twice": true, "two-keys-growing-log": true, "two-clients-same-key": true, "one-thread-two-lookups-vs-one": true, "fork-two-clients-empty-config": true}
+
 func prefixArg(p []int) string {
 	var ss []string
 	for _, x := range p {
@@ -109,7 +112,7 @@ func RunSchedules(r *fw.Run, scs []scen.Scenario, cfgs []Config, perJob, total t
 	var mu sync.Mutex
 	aggs := map[string]*agg{}
 	get := func(j jobT) *agg {
-		k := j.sc + "/" + j.gran + "/" + j.mode
+		k := fmt.Sprintf("%s/%s/%s/%d", j.sc, j.gran, j.mode, j.bound)
 		a := aggs[k]
 		if a == nil {
 			a = &agg{summary: summary{Scenario: j.sc, Granularity: j.gran, Mode: j.mode, Bound: j.bound}, outcomes: map[string]int{}}
@@ -199,11 +202,11 @@ func RunSchedules(r *fw.Run, scs []scen.Scenario, cfgs []Config, perJob, total t
 	// trees with many first-level alternatives are split one level deep only (one process per subtree)
 	perTree := map[string]int{}
 	for _, j := range level1 {
-		perTree[j.sc+"/"+j.gran+"/"+j.mode]++
+		perTree[fmt.Sprintf("%s/%s/%s/%d", j.sc, j.gran, j.mode, j.bound)]++
 	}
 	var split []jobT
 	for _, j := range level1 {
-		if perTree[j.sc+"/"+j.gran+"/"+j.mode] >= 48 {
+		if perTree[fmt.Sprintf("%s/%s/%s/%d", j.sc, j.gran, j.mode, j.bound)] >= 48 {
 			j.plan = false
 			jobs = append(jobs, j)
 		} else {
@@ -232,7 +235,7 @@ func RunSchedules(r *fw.Run, scs []scen.Scenario, cfgs []Config, perJob, total t
 	byKey := map[string][]jobT{}
 	var keys []string
 	for _, j := range jobs {
-		k := j.sc + "/" + j.gran + "/" + j.mode
+		k := fmt.Sprintf("%s/%s/%s/%d", j.sc, j.gran, j.mode, j.bound)
 		if _, ok := byKey[k]; !ok {
 			keys = append(keys, k)
 		}
@@ -269,7 +272,7 @@ func RunSchedules(r *fw.Run, scs []scen.Scenario, cfgs []Config, perJob, total t
 	var sums []summary
 	for _, sc := range scs {
 		for _, c := range cfgs {
-			if a := aggs[sc.Name+"/"+c.Gran+"/"+c.Mode]; a != nil {
+			if a := aggs[fmt.Sprintf("%s/%s/%s/%d", sc.Name, c.Gran, c.Mode, c.Bound)]; a != nil {
 				a.Complete = !a.incomplete
 				a.Outcomes = len(a.outcomes)
 				sums = append(sums, a.summary)
@@ -329,10 +332,10 @@ func firstLines(s string, n int) string {
 
 func Run(r *fw.Run) {
 	scs := scen.All()
-	cfgs := []Config{{Gran: "ops", Mode: "deviations", Bound: 2, Only: nil}, {Gran: "sync", Mode: "deviations", Bound: 1, Only: nil}, {Gran: "ops", Mode: "preemptions", Bound: 1, Only: Small}, {Gran: "sync", Mode: "preemptions", Bound: 1, Only: Small}}
+	cfgs := []Config{{Gran: "ops", Mode: "deviations", Bound: 2, Only: nil}, {Gran: "sync", Mode: "deviations", Bound: 1, Only: nil}, {Gran: "ops", Mode: "preemptions", Bound: 1, Only: Small}, {Gran: "sync", Mode: "preemptions", Bound: 1, Only: Small}, {Gran: "ops", Mode: "deviations", Bound: 3, Only: Compact}}
 	perJob, total := 20*time.Second, 50*time.Second
 	if r.Thorough() {
-		cfgs = []Config{{Gran: "ops", Mode: "deviations", Bound: 3, Only: nil}, {Gran: "sync", Mode: "deviations", Bound: 2, Only: nil}, {Gran: "ops", Mode: "preemptions", Bound: 2, Only: Small}, {Gran: "sync", Mode: "preemptions", Bound: 1, Only: Small}}
+		cfgs = []Config{{Gran: "ops", Mode: "deviations", Bound: 3, Only: nil}, {Gran: "sync", Mode: "deviations", Bound: 2, Only: nil}, {Gran: "ops", Mode: "preemptions", Bound: 2, Only: Small}, {Gran: "sync", Mode: "preemptions", Bound: 1, Only: Small}, {Gran: "ops", Mode: "deviations", Bound: 4, Only: Compact}}
 		perJob, total = 15*time.Minute, 25*time.Minute
 	}
 	var names []string
